@@ -21,6 +21,12 @@ pub enum Recipe {
     Hash(Num, Num),
     /// k * G, k in Z/r
     MulGen(Num),
+    /// library decoding of the little-endian bytes of this integer if the model says it is a
+    /// valid encoding (structured encodings: sparse limbs, Montgomery patterns, ...); identity otherwise
+    DecodeOr(Num),
+    /// the group element with this affine x coordinate, if one exists (model solves the curve
+    /// equation for y and checks group membership), entered through the decoder; identity otherwise
+    FromX(Num),
     /// library decoding of the *model's* encoding of the sub-recipe (Z = 1, canonical representative)
     ReDecode(Box<Recipe>),
     Add(Box<Recipe>, Box<Recipe>),
@@ -55,7 +61,7 @@ pub struct MTree {
 impl Recipe {
     pub fn kids(&self) -> Vec<&Recipe> {
         match self {
-            Identity | Default | Generator | Elligator(_) | Hash(..) | MulGen(_) => vec![],
+            Identity | Default | Generator | Elligator(_) | Hash(..) | MulGen(_) | DecodeOr(_) | FromX(_) => vec![],
             ReDecode(a) | Neg(a) | Double(a) | Mul(_, a) | MulLimbs(_, a) | MulLimbsCt(_, a) | Torsion(a) | MinusOneTimes(a) | AffineRoundTrip(a) => vec![a],
             Add(a, b) | Sub(a, b) | AddSub(a, b) | Select(_, a, b) => vec![a, b],
         }
@@ -77,6 +83,8 @@ impl Recipe {
             Elligator(r0) => c.elligator_spec(&r0.0),
             Hash(a, b) => c.add(&c.elligator_spec(&a.0), &c.elligator_spec(&b.0)),
             MulGen(k) => c.mul(&k.0, &GEN),
+            DecodeOr(sv) => c.decode_int(&sv.0).unwrap_or_else(|_| c.identity()),
+            FromX(x) => point_from_x(&x.0).unwrap_or_else(|| c.identity()),
             ReDecode(_) => c.decode_int(&c.encode_spec(&kids[0].pt)).expect("model: encodings of valid points decode"),
             Add(..) => c.add(&kids[0].pt, &kids[1].pt),
             Sub(..) => c.sub(&kids[0].pt, &kids[1].pt),
@@ -103,6 +111,14 @@ impl Recipe {
             Elligator(r0) => B::elligator(&r0.0),
             Hash(a, b) => B::hash2(&a.0, &b.0),
             MulGen(s) => B::mul_fr(&B::generator(), &s.0),
+            DecodeOr(_) | FromX(_) => {
+                // enter through the decoder with the model's canonical encoding of the model point
+                let bytes = CURVE.encode_bytes(&m.pt);
+                match B::decode(&bytes) {
+                    Ok(e) => e,
+                    Err(e) => panic!("{}: decoding the model's canonical encoding {} failed: {:?}", B::NAME, hex::encode(bytes), e),
+                }
+            }
             ReDecode(_) => {
                 let bytes = CURVE.encode_bytes(&m.kids[0].pt);
                 match B::decode(&bytes) {
@@ -168,6 +184,24 @@ impl Recipe {
     }
 }
 
+/// a valid group element with the given affine x, if any: y^2 = (1 + x^2) / (1 - d x^2) for a = -1
+pub fn point_from_x(x: &N) -> Option<Pt> {
+    let c = &*CURVE;
+    let f = &*crate::refmodel::Q;
+    let x = x % &f.m;
+    let xx = f.sq(&x);
+    let den = f.sub(&N::one(), &f.mul(&c.d, &xx));
+    let inv = f.inv(&den)?;
+    let yy = f.mul(&f.add(&N::one(), &xx), &inv);
+    let y = f.sqrt(&yy)?;
+    let p = Pt { x, y };
+    if c.valid(&p) {
+        Some(p)
+    } else {
+        None
+    }
+}
+
 /// T2 = r * G obtained through the public integer scalar multiplication.
 pub fn t2<B: Backend>() -> B::E {
     B::mul_limbs(&B::generator(), &limbs_of(&R.m))
@@ -181,6 +215,8 @@ fn leaf() -> BoxedStrategy<Recipe> {
         4 => gen::fq().prop_map(Elligator),
         1 => (gen::fq(), gen::fq()).prop_map(|(a, b)| Hash(a, b)),
         3 => gen::scalar().prop_map(MulGen),
+        1 => gen::fq().prop_map(DecodeOr),
+        1 => gen::fq().prop_map(FromX),
     ]
     .boxed()
 }
